@@ -281,7 +281,8 @@ func (jr *jpegReader) readExif() (err error) {
 		if err = jr.ExifReader(jr.br, exifHeader); err != nil {
 			return err
 		}
-		// Discard remaining bytes
+		// The Exif reader consumes the length it was given.
+		jr.discarded += exifLength
 		remain = 0
 	}
 
@@ -306,6 +307,8 @@ func (jr *jpegReader) readXMP() (err error) {
 			return err
 		}
 		// Discard remaining bytes
+		// Account for what the XMP reader consumed; the rest is discarded below.
+		jr.discarded += uint32(remain - int(r.(*io.LimitedReader).N))
 		remain = int(r.(*io.LimitedReader).N)
 	}
 	// Discard remaining bytes
